@@ -133,6 +133,14 @@ CHECKS = [
              "the momentum-flipped proposal or the initial state; merge_trees selects the new sub-tree's candidate with probability "
              "w_new/(w_new+w_cur) (or min(1, w_new/w_cur) when biased), keeps the right end points and adds the weights.",
      "design_ref": "DESIGN.md 4/C32"},
+    {"property_id": "C30", "engine": "B", "category": "other", "technique": TECH_B + "; classic operators by symbolic execution on object arrays (front end A)",
+     "note": NOTE_B + " Partial: normal, log-normal, uniform and Laplace transforms; inverse-gamma/gamma/beta and interpolated transforms (tabulated SciPy ppf) are NOT claimed. The error function is uninterpreted; log_ndtr and SciPy's norm/laplace objects are stubbed with their documented contracts.",
+     "text": "Bounded symbolic verification: JAX normal_prior/invprior, lognormal_prior/invprior, uniform_prior (6 concrete bound pairs "
+             "incl. unit-width intervals and int bounds, plus traced bounds), laplace_prior, the NormalPrior/LogNormalPrior/UniformPrior "
+             "models, classic lognormal_moments, UniformOperator and LaplaceOperator: with p = ndtr(xi) z3 refutes for ALL xi and "
+             "parameters T(xi) != closed-form quantile of the target at p, values outside the support, non-monotonicity and "
+             "inverse(T(xi)) != xi.",
+     "design_ref": "DESIGN.md 4/C30"},
 ]
 
 ALL = [f"C{i:02d}" for i in range(1, 37)]
